@@ -89,20 +89,35 @@ def _negative_assert():
     if len(asserts) != 1:
         raise Refuse(f"expected exactly one assert in approximate_instances, found {len(asserts)}")
     a = asserts[0]
-    names = {n.id for n in ast.walk(a.test) if isinstance(n, ast.Name)}
+    MINV = "min(np.min(pred_label_range[0]), np.min(ref_label_range[0]))"
+
+    class Fold(ast.NodeTransformer):
+        """the normaliser inlines a temporary used once: fold the minimum over both label ranges back into the name min_value"""
+        n = 0
+
+        def visit_Call(self, node):
+            if ast.unparse(node) == MINV:
+                Fold.n += 1
+                return ast.Name(id="min_value", ctx=ast.Load())
+            return self.generic_visit(node)
+    test = Fold().visit(a.test)
+    names = {n.id for n in ast.walk(test) if isinstance(n, ast.Name)}
     if names != {"min_value"}:
         raise Refuse("assert is not about min_value alone")
     # min_value must be the minimum over both label ranges' lower ends
     defs = [s for s in body if isinstance(s, ast.Assign) and ast.unparse(s.targets[0]) == "min_value"]
-    if len(defs) != 1 or ast.unparse(defs[0].value) != "min(np.min(pred_label_range[0]), np.min(ref_label_range[0]))":
-        raise Refuse("min_value is not min over both label ranges")
-    if body.index(defs[0]) > body.index(a):
-        raise Refuse("assert precedes min_value")
+    if Fold.n == 0:
+        if len(defs) != 1 or ast.unparse(defs[0].value) != MINV:
+            raise Refuse("min_value is not min over both label ranges")
+        if body.index(defs[0]) > body.index(a):
+            raise Refuse("assert precedes min_value")
+    elif defs:
+        raise Refuse("min_value is rebound")
     # the assert must come before the algorithm is called
     call_idx = [i for i, s in enumerate(body) if any(isinstance(n, ast.Call) and dotted_or_none(n.func) == "self._approximate_instances" for n in ast.walk(s))]
     if not call_idx or call_idx[0] < body.index(a):
         raise Refuse("assert does not precede the call of the algorithm")
-    t, ty = Tr({"min_value": ("min_value", "Z")}).expr(a.test)
+    t, ty = Tr({"min_value": ("min_value", "Z")}).expr(test)
     if ty != "bool":
         raise Refuse("assert test is not boolean")
     return t
@@ -115,33 +130,34 @@ def _threshold_chain():
     if [a.arg for a in f.args.args] != ["max_value"]:
         raise Refuse("_get_smallest_fitting_uint signature")
     body = strip_doc(f.body)
-    if not (len(body) == 2 and isinstance(body[0], ast.If) and isinstance(body[1], ast.Return)
-            and isinstance(body[1].value, ast.Name)):
-        raise Refuse("_get_smallest_fitting_uint: expected `if/elif/else` chain followed by `return <name>`")
-    var = body[1].value.id
     tr = Tr({"max_value": ("max_value", "Z")})
 
-    def assigned(stmts):
-        stmts = strip_doc(stmts)
-        if len(stmts) == 1 and isinstance(stmts[0], ast.If):
-            return chain(stmts[0])
-        if not (len(stmts) == 1 and isinstance(stmts[0], ast.Assign) and len(stmts[0].targets) == 1
-                and isinstance(stmts[0].targets[0], ast.Name) and stmts[0].targets[0].id == var):
-            raise Refuse("branch is not a single assignment of the returned name")
-        d = dotted(stmts[0].value)
+    def width(e):
+        d = dotted(e)
         if d not in WIDTHS:
             raise Refuse(f"unknown dtype {d}")
         return str(WIDTHS[d])
 
-    def chain(node):
-        c, ct = tr.expr(node.test)
-        if ct != "bool":
-            raise Refuse("threshold test is not boolean")
-        if not node.orelse:
-            raise Refuse("threshold chain without final else")
-        return f"(if {c} then {assigned(node.body)} else {assigned(node.orelse)})"
+    def chain(stmts):
+        """decision tree of a statement list: `if` chains whose branches assign one name that is returned afterwards, or return the
+        dtype directly (early returns); both spellings yield the same nested conditional"""
+        stmts = strip_doc(stmts)
+        if not stmts:
+            raise Refuse("_get_smallest_fitting_uint: a path ends without returning a dtype")
+        s, rest = stmts[0], stmts[1:]
+        if isinstance(s, ast.Return) and s.value is not None:
+            return width(s.value)
+        if isinstance(s, ast.Assign) and len(s.targets) == 1 and isinstance(s.targets[0], ast.Name) and len(rest) >= 1 \
+                and isinstance(rest[0], ast.Return) and isinstance(rest[0].value, ast.Name) and rest[0].value.id == s.targets[0].id:
+            return width(s.value)
+        if isinstance(s, ast.If):
+            c, ct = tr.expr(s.test)
+            if ct != "bool":
+                raise Refuse("threshold test is not boolean")
+            return f"(if {c} then {chain(list(s.body) + rest)} else {chain(list(s.orelse) + rest)})"
+        raise Refuse("_get_smallest_fitting_uint: expected `if` chains that assign or return a dtype, found " + type(s).__name__)
 
-    return chain(body[0])
+    return chain(body)
 
 
 # ------------------------------------------------------------------ library call table
